@@ -63,7 +63,11 @@ func verifMonth(label string) int {
 }
 
 // verifDate draws a Date in the window 2019..2024 with an arbitrary precision; fields below the precision are at their minimum.
-func verifDate(label string) (Date, verifCivil) {
+func verifDate(label string) (Date, verifCivil) { return verifDateSrc(label, false) }
+
+// verifDateSrc: with elements, the Date may also come from a FHIR date element read in some default time zone
+// (google/fhir's unmarshaller stores the local midnight and that zone in the proto).
+func verifDateSrc(label string, elements bool) (Date, verifCivil) {
 	li := verifrt.Choose(label+".layout", 3)
 	c := verifCivil{y: verifYear(label + ".y"), mo: 1, d: 1, rank: li}
 	if li >= 1 {
@@ -72,6 +76,17 @@ func verifDate(label string) (Date, verifCivil) {
 	if li >= 2 {
 		c.d = verifrt.NondetIntRange(label+".d", 1, 31)
 		verifrt.Assume(c.d <= verifDaysIn(c.y, c.mo))
+	}
+	if elements && verifrt.NondetBool(label+".fromElement") {
+		zones := []struct {
+			tz  string
+			off int
+		}{{"", 0}, {"+05:00", 18000}, {"-08:00", -28800}}
+		z := zones[verifrt.Choose(label+".zone", len(zones))]
+		us := time.Date(c.y, time.Month(c.mo), c.d, 0, 0, 0, 0, time.FixedZone("", z.off)).UnixMicro()
+		d, err := DateFromProto(&dtpb.Date{ValueUs: us, Timezone: z.tz, Precision: []dtpb.Date_Precision{dtpb.Date_YEAR, dtpb.Date_MONTH, dtpb.Date_DAY}[li]})
+		verifrt.Assume(err == nil)
+		return d, c
 	}
 	return Date{time.Date(c.y, time.Month(c.mo), c.d, 0, 0, 0, 0, time.UTC), verifDateLayouts[li]}, c
 }
